@@ -73,6 +73,9 @@ def closure_snapshot(node, env, frame):
     return snap
 
 
+_GUARD_IFS = {}
+
+
 RECORD_ARGS = frozenset([('ExcludeRegionState', 'processLinearMoves')])
 
 
@@ -401,7 +404,20 @@ class Interp(object):
     # ------------------------------------------------------------------ statements
     def block(self, st, env, stmts, frame):
         cur = [(st, env, None)]
-        for s in stmts:
+        for ix, s in enumerate(stmts):
+            if getattr(self, 'merge_ifs', True) and isinstance(s, ast.If) and not s.orelse and s.body and \
+                    isinstance(s.body[-1], ast.Return) and ix + 1 < len(stmts) and isinstance(stmts[-1], ast.Return) and \
+                    len(cur) == 1 and cur[0][2] is None:
+                # guard clause: `if c: return a` followed by the rest of the block is `if c: return a else: <rest>`; written
+                # that way both branches end in a return and can be merged into one lazily decided result
+                key = id(s)
+                syn = _GUARD_IFS.get(key)
+                if syn is None:
+                    syn = ast.If(test=s.test, body=s.body, orelse=list(stmts[ix + 1:]))
+                    ast.copy_location(syn, s)
+                    _GUARD_IFS[key] = syn
+                (s1, e1, _oc) = cur[0]
+                return self.stmt(s1, e1, syn, frame)
             nxt = []
             for (s1, e1, oc) in cur:
                 if oc is not None:
